@@ -220,6 +220,9 @@ def _post_checks(bad, rig, sd, t_mark, api):
             bad("timer-leak", f"{tag}: {len(timers)} timer(s) still scheduled after shutdown returned "
                               f"(first due at t={timers[0]._when}, now {loop.time()}): {timers[0]!r}"[:400])
     leaks("at return")
+    if net.finalizer_closed:
+        bad("connection-left-to-finalizer", f"connection {net.finalizer_closed[0]} was never closed by the client (closed only by "
+                                            f"StreamWriter.__del__, i.e. by the garbage collector)")
     still_open = sorted(net.open_conns)
     if still_open:
         bad("connection-left-open", f"connections {still_open} are still open after shutdown returned")
